@@ -79,6 +79,7 @@ type Op struct {
 	Caller string // first caller outside verifsim and internal/fs
 	Fault  string
 	At     time.Duration // simulated time since disk creation
+	Step   int           // scheduler step count (same clock as Event.Seq)
 }
 
 type Disk struct {
@@ -246,7 +247,7 @@ func (d *Disk) record(kind, p string, err error, data []byte, fault string) {
 	if d.NoLog {
 		return
 	}
-	op := Op{Seq: len(d.Log), Task: taskIDNoRace(), Epoch: d.Epoch, Kind: kind, Path: p, Fault: fault, At: d.Now().Sub(d.base)}
+	op := Op{Seq: len(d.Log), Task: taskIDNoRace(), Epoch: d.Epoch, Kind: kind, Path: p, Fault: fault, At: d.Now().Sub(d.base), Step: Now()}
 	if err != nil {
 		op.Err = errnoName(err)
 	}
@@ -854,7 +855,7 @@ func (d *Disk) lockEdit(kind, p string, data []byte) func() {
 	return func() {
 		d.Counts["edit-"+kind]++
 		if !d.NoLog {
-			op := Op{Seq: len(d.Log), Task: -1, Epoch: d.Epoch, Kind: "edit-" + kind, Path: p, At: d.Now().Sub(d.base)}
+			op := Op{Seq: len(d.Log), Task: -1, Epoch: d.Epoch, Kind: "edit-" + kind, Path: p, At: d.Now().Sub(d.base), Step: Now()}
 			if data != nil {
 				op.N = len(data)
 				op.Sum = fnv(data)
